@@ -42,7 +42,9 @@ Definition ex_enum : list member :=
    (104, Some (XBin 6 (XRef 101) (XNum 3))); (105, Some (XNeg (XRef 104))); (106, Some (XNot (XRef 105))); (107, None)].
 Example ex_enum_values : enum_values ex_enum = [VNum 0; VNum 16; VNum 17; VStr [120]; VNum 19; VNum (-19); VNum 18; VNum 19].
 Proof. vm_compute. reflexivity. Qed.
-Example ex_enum_hyps : pow_ok_members st0 ex_enum = true.
+Example ex_enum_hyps : forallb (fun v => match v with VOut => false | _ => true end) (enum_values ex_enum) = true.
+Proof. vm_compute. reflexivity. Qed.
+Example ex_pow : map (fun p => go_pow (fst p) (snd p)) [(VNum 1, VNaN); (VNum (-1), VInf true); (VNaN, VNum 0); (VNum 2, VNum 10)] = [VNaN; VNaN; VNum 1; VNum 1024].
 Proof. vm_compute. reflexivity. Qed.
 
 (* the widened grammar:
